@@ -83,7 +83,7 @@ EXPORT int vwprintf_s(const wchar_t *restrict fmt, va_list ap) {
     }
 
 #if defined(HAVE_WCSSTR) || !defined(SAFECLIB_DISABLE_EXTENSIONS)
-    if (unlikely((p = safec_find_percent_wn(fmt)))) {
+    if (unlikely((p = safec_find_percent_wn_printf(fmt)))) {
         { /* any n conversion, whatever flags, width or length modifier */
             invoke_safe_str_constraint_handler("vwprintf_s: illegal %n", NULL,
                                                EINVAL);
